@@ -2,7 +2,7 @@
 INIT Init
 NEXT SimNext
 CONSTANTS
-  MaxBufs = 5
+  MaxBufs = 7
   Caps = {0, 1, 4095, 4096, 4097, 8192, 65536}
   WSizes = {1, 2, 7, 1023, 1024, 1025, 4095, 4096, 4097, 8191, 8192, 8193, 32768}
   RSizes = {0, 1, 2, 1024, 1025, 4096, 8192}
